@@ -4,7 +4,7 @@ D="$1"; X="$2"; ID="$3"; PROP="$4"; NEEDS="$5"; VERDICT="$6"
 mkdir -p /verif/seeded/$ID
 cp "$D/$X.diff" /verif/seeded/$ID/patch.diff
 cp "$D/demo_$X.py" /verif/seeded/$ID/demo.py
-[ -f "$D/_common.py" ] && cp "$D/_common.py" /verif/seeded/$ID/_common.py
+for f in "$D"/*.py; do case "$(basename $f)" in demo_*) ;; *) cp "$f" /verif/seeded/$ID/ ;; esac; done
 /venv/bin/python - "$ID" "$PROP" "$NEEDS" "$VERDICT" <<'PY'
 import json,sys
 i,p,n,v=sys.argv[1:5]
